@@ -537,7 +537,7 @@ func init() {
 		maxVotes := c.mustConst("types", "MaxVotesCount")
 		for _, ub := range []struct {
 			typ, what, x string
-			max           int64
+			max          int64
 		}{
 			{"ProposalMessage", "the part count the proposal claims", `m\.Proposal\.BlockID\.PartSetHeader\.Total`, maxParts},
 			{"NewValidBlockMessage", "the size of the part bit array", `m\.BlockParts\.Size\(\)`, maxParts},
